@@ -254,6 +254,14 @@ fn classify_spec(spec: &ElfSpec, st: &mut Stats, c12: bool) -> bool {
     if spec.segs.iter().any(|s| s.ty == 1 && s.memsz as usize > s.data.len()) {
         st.class("segment with memsz > filesz");
     }
+    if spec.image_end() + BASE >= 0x5f_fff8 {
+        st.class("image reaches the last bytes of DRAM");
+    }
+    if let Some((a, ents)) = &spec.got {
+        if spec.segs.iter().any(|g| g.ty == 1 && !ents.is_empty() && a + 4 * ents.len() as u32 == g.vaddr + g.data.len() as u32) {
+            st.class(".got flush at the end of a segment's file contents");
+        }
+    }
     if spec.got.as_ref().map(|g| g.0 % 4 != 0).unwrap_or(false) {
         st.class(".got at an unaligned address");
     }
@@ -278,6 +286,9 @@ fn classify_spec(spec: &ElfSpec, st: &mut Stats, c12: bool) -> bool {
 pub fn run_elf(ctx: &Ctx, property: &'static str) -> i32 {
     let c12 = property == "C12";
     if let Some(v) = &ctx.replay {
+        if let Some(code) = replay_fuzz(property, v) {
+            return code;
+        }
         let case = v.get("case").unwrap_or(v);
         let (Some(file), Some(args)) = (case.get("file").and_then(|f| f.as_str()).and_then(crate::engine::stepcase::unhex), case.get("args").and_then(|a| a.as_str())) else { return 2 };
         // rebuild a minimal spec from the file is not possible in general: the replay re-parses the file
@@ -347,6 +358,10 @@ pub fn run_elf(ctx: &Ctx, property: &'static str) -> i32 {
         }
         st
     });
+    let mut stats = stats;
+    if tier == Tier::Thorough {
+        fuzz_campaign(ctx, "fuzz_elf", 8, 6_000, 4096, &mut stats);
+    }
     let rule = if c12 {
         "cases = proptest-generated ELF32-BE files as in C11 restricted to the quantifier (p_paddr = p_vaddr, PT_LOAD ascending, non-load headers in any position incl. last) with a .stack section of size 0-64 KiB (encoded in its address field like the MES toolchain does), a symbol table of 1-200 symbols with ___exit at any index (other names incl. prefixes/suffixes of ___exit), and argument strings of 0-32 printable-ASCII words up to 200 bytes separated and surrounded by runs of blanks/tabs. Oracle computed from the statement on the *observed* pointers (any correct layout passes): ER2 = base, ER5 = base + .got, ER7 aligned and 8 below align4(image end + stack size), ER0 = argc, ER1 -> argc pointers + NULL, strings byte-exact and NUL-terminated, all blocks inside DRAM above stack + 88-byte TCB, pairwise disjoint, image intact, exit address = ___exit + base. Non-trivial = >= 2 words with multi-blank/tab separators, or last program header not PT_LOAD, or image end not 4-aligned; distinct by file contents."
     } else {
